@@ -347,11 +347,13 @@ func ruleC03(c *Ctx) {
 }
 
 // writerLoopHazards: two ways a text writer loses data that are visible in its shape.
-//  (1) a loop that writes one line per element of a list LEAVES the loop when an element's value is
-//      empty (break instead of continue): every later element is dropped.
-//  (2) a value that is written as continuation lines is cut at a fixed column (s[:k], s[k:]) rather
-//      than at blanks: the reader re-joins continuation lines with a blank, so a long unbroken token
-//      comes back with a blank inside.
+//
+//	(1) a loop that writes one line per element of a list LEAVES the loop when an element's value is
+//	    empty (break instead of continue): every later element is dropped.
+//	(2) a value that is written as continuation lines is cut at a fixed column (s[:k], s[k:]) rather
+//	    than at blanks: the reader re-joins continuation lines with a blank, so a long unbroken token
+//	    comes back with a blank inside.
+//
 // One violation per site found; nothing is reported otherwise.
 func writerLoopHazards(c *Ctx, rule string, fam []*ssa.Function) {
 	for _, f := range fam {
